@@ -469,9 +469,27 @@ func runCase(c Case) *pt.Failure {
 			split = c.Split
 		}
 		// ---- results
+		xaInTx, xaTxFailed := false, false // XA inside a global transaction: a failed statement rolls the whole branch back (C17);
+		// what the caller still does with that explicit transaction is refused, which the bare driver does not do
 		for i := range c.Ops {
 			ra, rb := a.results[i], b.results[i]
 			inGlobal := c.Context != "plain" && i < split
+			if c.Driver == "xa" && inGlobal {
+				k := c.Ops[i].Kind
+				switch {
+				case k == "begin":
+					xaInTx, xaTxFailed = ra.Err == "" && rb.Err == "", false
+				case xaTxFailed:
+					if k == "commit" || k == "rollback" {
+						xaInTx, xaTxFailed = false, false
+					}
+					continue
+				case k == "commit" || k == "rollback":
+					xaInTx = false
+				case xaInTx && ra.Err != "" && rb.Err != "":
+					xaTxFailed = true
+				}
+			}
 			same := ra.String() == rb.String()
 			if inGlobal && ra.Err != "" && rb.Err != "" {
 				same = errClass(ra.Err) == errClass(rb.Err)
